@@ -28,7 +28,8 @@ RULE = ("a BD object is used for 1-3 consecutive precodings (object re-used, "
         "K >= 2 (always).  "
         "The driver records the requested metric / stream count (the contract "
         "compares them with what is in force) and reconfigures the same object "
-        "between rounds. ")
+        "between rounds. "
+        "Ext-int channels carry a per-link path loss in 40 % of the cases and the solution is judged on big_H (what corrupt_data applies), not on the view the solver reads; other configured EnhancedBD objects are kept alive next to the one under test. ")
 ASSUMPTIONS = [
     "a stream counts as 'given power' when its effective gain sqrt(p)*sigma "
     "exceeds 1e-10 of the largest one (pinv discards below 1e-15: the zone in "
@@ -126,8 +127,13 @@ def post_extint(ctx, args, kwargs, result):
     Ms, Wk, Ns = result
     K = mu.K
     Nr, Nt = np.asarray(mu.Nr), np.asarray(mu.Nt)
-    Hb = np.asarray(mu.big_H_no_ext_int)
     Hfull = np.asarray(mu.big_H)
+    # the channel the users really see (what corrupt_data applies), restricted to
+    # the users' own transmitters -- not the view the solver itself reads
+    Hb = Hfull[:, :int(np.sum(Nt))]
+    ctx.ev("stream-counts", np.shape(mu.big_H_no_ext_int) == Hb.shape and
+           np.array_equal(np.asarray(mu.big_H_no_ext_int), Hb), cls="no-ext-int-view-of-big_H",
+           detail=lambda: {"big_H": Hfull, "big_H_no_ext_int": np.asarray(mu.big_H_no_ext_int)})
     Pu = float(self.iPu)
     normH = float(np.linalg.norm(Hb, 2))
     n = Hb.shape[0]
@@ -309,7 +315,15 @@ def make_mu(rng, K, nant, NtE, noise, gclass="balanced"):
     mu.init_from_channel_matrix(H, np.full(K, nant), np.full(K, nant), K,
                                 NtE if len(NtE) > 1 else int(NtE[0]))
     mu.noise_var = noise
+    if rng.random() < 0.4:
+        # large-scale fading on top: per-link path loss, also towards the
+        # external sources
+        mu.set_pathloss(10.0 ** rng.uniform(-2, 0, size=(K, K)),
+                        10.0 ** rng.uniform(-2, 0, size=(K, len(NtE))))
     return mu, H
+
+
+KEEP = []          # other configured objects kept alive across cases
 
 
 def case_extint(ctx, rng, idx):
@@ -344,6 +358,16 @@ def case_extint(ctx, rng, idx):
             mod = [F.BPSK(), F.QPSK(), F.PSK(8), F.QAM(16), F.QAM(64)][int(rng.integers(0, 5))]
             extra = {"modulator": mod, "packet_length": int(rng.choice([1, 60, 1000]))}
         bd.set_ext_int_handling_metric(None if metric == "None" else metric, extra)
+        if rng.random() < 0.4:
+            # a sweep keeps several configured objects alive: configuring
+            # another one must not change this one
+            other = BD.EnhancedBD(K, Pu, noise, pe)
+            mo = str(rng.choice(["naive", "fixed", "fixed", "capacity"]))
+            other.set_ext_int_handling_metric(
+                mo, {"num_streams": int(rng.integers(1, nant + 1))}
+                if mo in ("naive", "fixed") else None)
+            KEEP.append(other)
+            del KEEP[:-4]
     EXPECT["metric"] = metric if metric != "whitening" else None
     EXPECT["num_streams"] = (extra or {}).get("num_streams")
     d = {"K": K, "nant": nant, "NtE": NtE, "metric": metric,
